@@ -146,16 +146,37 @@ Qed.
 
 Lemma tcx_weighted_sum P l ne te ds :
   tcx_weighted P l ne te ds == Qsum (map (tcx_term P l ne te) ds).
-Proof. unfold tcx_weighted. rewrite fold_sum. ring. Qed.
+Proof.
+  unfold tcx_weighted.
+  assert (G : forall a, fold_left (fun acc d => if Qle_bool (s_dens d) 0 then acc else acc + tcx_raw_term P l ne te d) ds a
+                  == a + Qsum (map (tcx_term P l ne te) ds)).
+  { induction ds as [|d t IH]; intro a; cbn [fold_left map Qsum]; [ring|].
+    rewrite IH. unfold tcx_term at 2. destruct (Qle_bool (s_dens d) 0); ring. }
+  rewrite G. ring.
+Qed.
+
+(* a donor of non-positive density contributes nothing; otherwise n_d * PEC_d(ne, te, T_d) *)
+Lemma tcx_term_zero P l ne te d : s_dens d <= 0 -> tcx_term P l ne te d == 0.
+Proof. intro H; unfold tcx_term; rewrite (nonpos_true _ H); reflexivity. Qed.
+
+Lemma tcx_term_pos P l ne te d : 0 < s_dens d -> tcx_term P l ne te d == s_dens d * tcx_coef P l ne te d.
+Proof. intro H; unfold tcx_term; rewrite (pos_false _ H); reflexivity. Qed.
+
+Lemma tcx_term_nonneg P l ne te d :
+  (forall de dc re rc t a b c, 0 <= tcx_pec P de dc re rc t a b c) -> 0 <= tcx_term P l ne te d.
+Proof.
+  intro Hr; unfold tcx_term. destruct (Qle_bool (s_dens d) 0) eqn:E; [lra|].
+  apply Qle_bool_false in E. unfold tcx_raw_term. apply Qmult_le_0_compat; [lra|apply Hr].
+Qed.
 
 Lemma thermalcx_formula P l ne te comp rcv :
   comp_get comp (l_elem l) (l_charge l + 1) = Some rcv -> 0 < ne -> 0 < te -> 0 < s_dens rcv ->
   exists r, thermalcx_radiance P l ne te comp = Emit r /\
-            r == k4pi * s_dens rcv * Qsum (map (fun d => s_dens d * tcx_coef P l ne te d) (donors rcv comp)).
+            r == k4pi * s_dens rcv * Qsum (map (tcx_term P l ne te) (donors rcv comp)).
 Proof.
   intros G H1 H2 H3. unfold thermalcx_radiance. rewrite G.
   rewrite (pos_false ne H1), (pos_false te H2), (pos_false (s_dens rcv) H3).
-  eexists; split; [reflexivity|]. rewrite tcx_weighted_sum. unfold tcx_term, tcx_coef. ring.
+  eexists; split; [reflexivity|]. rewrite tcx_weighted_sum. ring.
 Qed.
 
 Lemma thermalcx_zero P l ne te comp rcv :
@@ -169,13 +190,12 @@ Proof.
   apply Qle_bool_false in E1, E2, E3. destruct H as [H|[H|H]]; lra.
 Qed.
 
-(* non-negative coefficients and non-negative donor densities give non-negative emission *)
+(* non-negative coefficients give non-negative emission, whatever the signs of the densities and temperatures *)
 Lemma thermalcx_nonneg P l ne te comp :
   (forall de dc re rc t a b c, 0 <= tcx_pec P de dc re rc t a b c) ->
-  (forall d, In d comp -> 0 <= s_dens d) ->
   0 <= emitted (thermalcx_radiance P l ne te comp).
 Proof.
-  intros Hr Hd. unfold thermalcx_radiance. destruct (comp_get _ _ _) as [rcv|]; [|cbn; lra].
+  intros Hr. unfold thermalcx_radiance. destruct (comp_get _ _ _) as [rcv|]; [|cbn; lra].
   destruct (Qle_bool ne 0) eqn:E1; [cbn; lra|].
   destruct (Qle_bool te 0) eqn:E2; [cbn; lra|].
   destruct (Qle_bool (s_dens rcv) 0) eqn:E3; [cbn; lra|].
@@ -183,21 +203,24 @@ Proof.
   pose proof k4pi_pos.
   assert (0 <= Qsum (map (tcx_term P l ne te) (donors rcv comp))).
   { apply Qsum_nonneg. intros x Hx. apply in_map_iff in Hx. destruct Hx as [d [<- Hin]].
-    apply donor_filter_spec in Hin. unfold tcx_term. apply Qmult_le_0_compat; [apply Hd; tauto|apply Hr]. }
+    apply tcx_term_nonneg, Hr. }
   repeat apply Qmult_le_0_compat; lra.
 Qed.
 
-(* the current code has no guard on the donor: a negative donor density gives negative emission
-   although every coefficient is non-negative (witness of the finding reported by the check) *)
+(* record of a past finding (fixed in /repo by d7d08ca): the donor loop WITHOUT the density guard gives negative
+   emission for a negative donor density although every coefficient is non-negative *)
+Definition tcx_weighted_unfixed (P : provider) (l : line) (ne te : Q) (ds : list species) : Q :=
+  fold_left (fun acc d => acc + tcx_raw_term P l ne te d) ds 0.
 Definition refute_P : provider :=
   mkProvider (fun _ _ _ _ _ => 1) (fun _ _ _ _ _ => 1) (fun _ _ _ _ _ _ _ _ => 1)
              (fun _ _ => None) (fun _ _ => None) (fun _ _ => None).
-Definition refute_comp : composition :=
-  [mkSpecies 4 6 6 1 1; mkSpecies 1 0 1 (-1) 1].
-Lemma thermalcx_negative_donor_refuted :
+Definition refute_rcv : species := mkSpecies 4 6 6 1 1.
+Definition refute_comp : composition := [refute_rcv; mkSpecies 1 0 1 (-1) 1].
+Lemma thermalcx_unfixed_negative_donor_refuted :
   (forall de dc re rc t a b c, 0 <= tcx_pec refute_P de dc re rc t a b c) /\
-  emitted (thermalcx_radiance refute_P (mkLine 4 5 0) 1 1 refute_comp) < 0.
-Proof. split; [intros; cbn; lra | vm_compute; reflexivity]. Qed.
+  k4pi * tcx_weighted_unfixed refute_P (mkLine 4 5 0) 1 1 (donors refute_rcv refute_comp) * s_dens refute_rcv < 0 /\
+  emitted (thermalcx_radiance refute_P (mkLine 4 5 0) 1 1 refute_comp) == 0.
+Proof. split; [intros; cbn; lra | split; vm_compute; reflexivity]. Qed.
 
 (* filter commutes with a map that does not change the predicate *)
 Lemma filter_map_inv {A} (p : A -> bool) (f : A -> A) (l : list A) :
@@ -215,14 +238,16 @@ Lemma donors_upd rcv e c n comp :
 Proof. unfold donors, upd_dens. apply filter_map_inv. intro; apply is_donor_upd. Qed.
 
 (* sum over an updated list: the species with the key contribute n * coefficient *)
-Lemma tcx_sum_upd P l ne te e c n ds :
+Lemma tcx_sum_upd P l ne te e c n ds : 0 < n ->
   Qsum (map (tcx_term P l ne te) (map (upd_species e c n) ds)) ==
   Qsum (map (tcx_term P l ne te) (filter (fun d => negb (key_eqb e c d)) ds))
   + n * Qsum (map (tcx_coef P l ne te) (filter (key_eqb e c) ds)).
 Proof.
-  induction ds as [|d t IH]; [cbn; ring|].
+  intro Hn. induction ds as [|d t IH]; [cbn; ring|].
   cbn [map filter Qsum]. rewrite IH. unfold upd_species at 1.
-  destruct (key_eqb e c d); cbn [negb map Qsum]; unfold tcx_term, tcx_coef; cbn [set_dens s_dens s_elem s_charge s_temp]; ring.
+  destruct (key_eqb e c d); cbn [negb map Qsum]; [|ring].
+  rewrite tcx_term_pos by (cbn [set_dens s_dens]; exact Hn).
+  unfold tcx_coef; cbn [set_dens s_dens s_elem s_charge s_temp]; ring.
 Qed.
 
 Lemma upd_species_other e c n s : key_eqb e c s = false -> upd_species e c n s = s.
@@ -231,18 +256,18 @@ Proof. intro K; unfold upd_species; rewrite K; reflexivity. Qed.
 Lemma upd_species_same e c n s : key_eqb e c s = true -> upd_species e c n s = set_dens s n.
 Proof. intro K; unfold upd_species; rewrite K; reflexivity. Qed.
 
-(* affine in every donor density (no sign restriction: the code has no donor guard) *)
+(* affine in every donor density on the positive side of the donor guard *)
 Lemma thermalcx_affine_in_donor P l ne te comp rcv de dc n :
   comp_get comp (l_elem l) (l_charge l + 1) = Some rcv -> key_eqb de dc rcv = false ->
-  0 < ne -> 0 < te -> 0 < s_dens rcv ->
+  0 < ne -> 0 < te -> 0 < s_dens rcv -> 0 < n ->
   emitted (thermalcx_radiance P l ne te (upd_dens de dc n comp)) ==
     k4pi * s_dens rcv * Qsum (map (tcx_term P l ne te) (filter (fun d => negb (key_eqb de dc d)) (donors rcv comp)))
   + n * (k4pi * s_dens rcv * Qsum (map (tcx_coef P l ne te) (filter (key_eqb de dc) (donors rcv comp)))).
 Proof.
-  intros G K H1 H2 H3. unfold thermalcx_radiance. rewrite comp_get_upd, G. cbn [option_map].
+  intros G K H1 H2 H3 Hn. unfold thermalcx_radiance. rewrite comp_get_upd, G. cbn [option_map].
   rewrite (upd_species_other _ _ _ _ K).
   rewrite (pos_false ne H1), (pos_false te H2), (pos_false (s_dens rcv) H3). cbn [emitted].
-  rewrite tcx_weighted_sum, donors_upd, tcx_sum_upd. ring.
+  rewrite tcx_weighted_sum, donors_upd, tcx_sum_upd by exact Hn. ring.
 Qed.
 
 Lemma map_upd_id e c n (ds : list species) :
